@@ -49,7 +49,24 @@
  *   operation is applied to both; the two results must have equal canonical
  *   forms and equal bytes ("differential" violation otherwise).
  *
- * ORACLE on every term: see check_object().  LIFETIME: see run_lifetime().
+ * ORACLE on every term: see check_object() (size, apply tiling + early stop +
+ * apply_f, create_map, copy_region at every location, in-place flattening);
+ * around every operation the external retain counts of the operands and leaves
+ * must be unchanged once the result has been released again (rc_check, an
+ * attribution aid that uses the internal _os_object_retain_count).
+ * LIFETIME: see run_lifetime() - every operation application up to a smaller
+ * depth whose DAG has <= 4 handles is rebuilt from scratch for every release
+ * order x 3 variants, draining the private destructor queue after each release.
+ *
+ * BOUNDS (TIERS[]): quick = objects <= 4 records / <= 8 bytes, operation depth
+ * <= 3, all five leaf-kind configurations.  thorough = <= 6 records / <= 12
+ * bytes; depth 4 for the configurations block/free/default and none/alloc/func
+ * (together: every leaf kind) and depth 3 for the other three (depth 4 is ~44 M
+ * work items on ~26.5 M canonical states per configuration; configurations are
+ * checked to reach identical canonical state sets level by level).  concat(a,b) is applied
+ * when size(a)+size(b) and records(a)+records(b) stay within the bound.
+ * States of the last depth are never expanded, hence never pooled: they are only
+ * counted, in a shared set keyed by the 64-bit hash of the canonical form.
  *
  * PROCESS STRUCTURE: main forks one "config master" per leaf-kind
  * configuration.  A master owns the pool of live objects (it never releases
@@ -82,6 +99,14 @@
 #include <sys/stat.h>
 
 extern int __asan_address_is_poisoned(void const volatile *addr);
+/* Internal (non-exported, but linkable from the static library) accessor of an
+ * object's external reference count, src/object.c.  Used ONLY to attribute a
+ * reference-count bug to the operation that caused it: applying an operation,
+ * observing the result and releasing it again must leave the retain counts of
+ * the operands and leaves unchanged - a drift is a leak (destructor never runs)
+ * or an over-release (destructor runs early), i.e. a C13 lifetime violation
+ * that would otherwise only surface later as an ASan report on another term. */
+extern unsigned long _os_object_retain_count(void *obj);
 const char *__asan_default_options(void);
 const char *__asan_default_options(void)
 {
@@ -147,10 +172,12 @@ typedef struct {
 	double deadline_s;
 	int log2_states;   /* capacity of the shared last-level state set */
 	bool sequential;   /* run the leaf-kind configurations one after the other */
+	bool deep_last;    /* deep post-flatten checks also on the states of the last depth */
+	unsigned full_depth_cfgs; /* bit mask of configs searched to maxdepth; the others stop at maxdepth-1 */
 } tier_t;
 static const tier_t TIERS[] = {
-	{ "quick",    4,  8, 3, 2, 4,  75.0, 21, false },
-	{ "thorough", 6, 12, 4, 3, 4, 840.0, 27, true },
+	{ "quick",    4,  8, 3, 2, 4,  75.0, 21, false, true, 0x1f },
+	{ "thorough", 6, 12, 4, 3, 4, 840.0, 27, true, false, 0x18 },
 };
 static tier_t T;
 static int g_workers_total = 16;
@@ -397,6 +424,11 @@ typedef struct { leaf_t leaf[4]; dispatch_queue_t q; int cfg; } world_t;
 static world_t *g_func_world; /* for the create_f function destructor */
 
 static uint64_t g_libcalls;   /* library calls made (ops + observers) */
+/* Informational only (NOT part of C13, not a violation): how often the region
+ * object handed to a dispatch_data_apply applier is larger than the region it
+ * is documented to "represent" (the code passes the whole leaf object for a
+ * trimmed record, src/data.c _dispatch_data_apply). */
+static uint64_t g_info_region_obj_larger;
 #define LC() (g_libcalls++)
 
 static void noop_fn(void *ctx) { (void)ctx; }
@@ -521,7 +553,7 @@ static void kb_identify(const uint8_t *p, size_t n, char *out, size_t cap, size_
 	for (int k = 1; k <= 3 && g_world; k++) {
 		const leaf_t *l = &g_world->leaf[k];
 		if (l->created && l->buf && p >= l->buf && p < l->buf + l->size) {
-			snprintf(out, cap, "L%d", k);
+			if (out && cap > 2) { out[0] = 'L'; out[1] = (char)('0' + k); out[2] = 0; }
 			*off = (size_t)(p - l->buf); *known = true;
 			*inside = n <= l->size - *off;
 			return;
@@ -531,12 +563,12 @@ static void kb_identify(const uint8_t *p, size_t n, char *out, size_t cap, size_
 	while (lo < hi) { int mid = (lo + hi) / 2; if (g_kb[mid].p <= p) lo = mid + 1; else hi = mid; }
 	if (lo > 0 && p < g_kb[lo - 1].p + g_kb[lo - 1].n) {
 		const kbuf_t *k = &g_kb[lo - 1];
-		snprintf(out, cap, "%s", k->name);
+		if (out) snprintf(out, cap, "%s", k->name);
 		*off = (size_t)(p - k->p); *known = true;
 		*inside = n <= k->n - *off;
 		return;
 	}
-	out[0] = 0;
+	if (out) out[0] = 0;
 }
 
 /* ----------------------------------------------------- apply collector */
@@ -557,8 +589,8 @@ static bool coll_fn(void *ctx, dispatch_data_t region, size_t off, const void *b
 	if (!region) c->nullreg = true;
 	if (c->n < MAXREG) { reg_t *r = &c->r[c->n++]; r->region = region; r->off = off; r->buf = buf; r->size = size; }
 	if (size) {
-		char nm[MAXB + 8]; size_t o; bool known, inside;
-		kb_identify(buf, size, nm, sizeof nm, &o, &known, &inside);
+		size_t o; bool known, inside;
+		kb_identify(buf, size, NULL, 0, &o, &known, &inside);
 		if (known && !inside) c->outside = true;           /* do not read past a known buffer */
 		else if (c->total + size <= MAXB) memcpy(c->bytes + c->total, buf, size); /* ASan-checked read */
 		else c->trunc = true;
@@ -611,22 +643,37 @@ static bool check_tiling(const char *what, bool ret, const coll_t *c, const mstr
 	}
 	return true;
 }
+static size_t put_uint(char *out, size_t v)
+{
+	char tmp[24]; int n = 0;
+	do { tmp[n++] = (char)('0' + v % 10); v /= 10; } while (v);
+	for (int i = 0; i < n; i++) out[i] = tmp[n - 1 - i];
+	return (size_t)n;
+}
 static void canon_from(const coll_t *c, size_t size, char *out, size_t cap, int *nrec)
 {
-	size_t o = (size_t)snprintf(out, cap, "%zu:", size);
-	for (int i = 0; i < c->n && o + MAXB + 40 < cap; i++) {
-		char nm[MAXB + 8]; size_t off; bool known, inside;
+	size_t o = put_uint(out, size);
+	out[o++] = ':';
+	size_t start = 0;
+	for (int i = 0; i < c->n && o + 4 * MAXB + 60 < cap; i++) {
+		char nm[4 * MAXB + 8]; size_t off; bool known, inside;
 		kb_identify(c->r[i].buf, c->r[i].size, nm, sizeof nm, &off, &known, &inside);
 		if (!known) {
 			/* a buffer allocated by the library: identified by content */
 			nm[0] = 'M';
-			size_t start = 0;
-			for (int j = 0; j < i; j++) start += c->r[j].size;
-			m_fmt(nm + 1, sizeof nm - 1, c->bytes + (start < MAXB ? start : 0), c->r[i].size <= MAXB - start ? c->r[i].size : 0);
+			m_fmt(nm + 1, sizeof nm - 1, c->bytes + (start < MAXB ? start : 0), c->r[i].size <= MAXB - (start < MAXB ? start : MAXB) ? c->r[i].size : 0);
 			off = 0;
 		}
-		o += (size_t)snprintf(out + o, cap - o, "(%s,%zu,%zu)", nm, off, c->r[i].size);
+		out[o++] = '(';
+		for (const char *q = nm; *q; q++) out[o++] = *q;
+		out[o++] = ',';
+		o += put_uint(out + o, off);
+		out[o++] = ',';
+		o += put_uint(out + o, c->r[i].size);
+		out[o++] = ')';
+		start += c->r[i].size;
 	}
+	out[o] = 0;
 	*nrec = c->n;
 }
 
@@ -817,6 +864,8 @@ static bool check_object(dispatch_data_t d, const mstr *m, char *canon, size_t c
 	bool ret = collect(d, &c, -1, false);
 	if (!check_tiling("apply", ret, &c, m)) return false;
 	if (canon) canon_from(&c, sz, canon, ccap, nrec);
+	for (int k = 0; k < c.n; k++)
+		if (c.r[k].region && dispatch_data_get_size(c.r[k].region) != c.r[k].size) { g_info_region_obj_larger++; break; }
 	/* 3. early stop: applier returning false at call k stops the traversal */
 	for (int k = 0; k < c.n; k++) {
 		ret = collect(d, &c2, k, false);
@@ -850,6 +899,30 @@ static bool check_object(dispatch_data_t d, const mstr *m, char *canon, size_t c
 	/* 8. flattening, last because it mutates the representation */
 	if ((flags & CO_FRESH) && g_nfail == before) check_flattened(d, m, (flags & CO_FLAT_DEEP) != 0);
 	return g_nfail == before;
+}
+
+/* ---------------------------------------------- reference-count drift aid */
+#define MAXRC 8
+typedef struct { dispatch_data_t o[MAXRC]; unsigned long c[MAXRC]; const char *nm[MAXRC]; int n; } rcsnap_t;
+static void rc_add(rcsnap_t *s, dispatch_data_t o, const char *nm)
+{
+	if (!o || s->n >= MAXRC) return;
+	for (int i = 0; i < s->n; i++) if (s->o[i] == o) return;
+	s->o[s->n] = o; s->nm[s->n] = nm; s->c[s->n] = _os_object_retain_count(o); s->n++;
+}
+static void rc_world(rcsnap_t *s, world_t *w)
+{
+	static const char *nm[4] = { "E", "L1", "L2", "L3" };
+	for (int k = 1; k <= 3; k++) if (w && w->leaf[k].created) rc_add(s, w->leaf[k].obj, nm[k]);
+}
+static void rc_check(const rcsnap_t *s)
+{
+	for (int i = 0; i < s->n; i++) {
+		unsigned long now = _os_object_retain_count(s->o[i]);
+		if (now != s->c[i])
+			FAIL("refcount-drift", "retain count of %s went %lu -> %lu across apply-operation/observe/release-result (%s)",
+			     s->nm[i], s->c[i], now, now > s->c[i] ? "leak: its destructor can never run" : "over-release: its destructor will run early");
+	}
 }
 
 /* ------------------------------------------- building a term from scratch */
@@ -908,6 +981,12 @@ static bool build_dag(built_t *B, const dag_t *g, int cfg, bool full)
 	for (int i = 0; i < g->n; i++) {
 		const dnode *d = &g->nd[i];
 		bool ok = true;
+		rcsnap_t rc = { .n = 0 };
+		if (full && i == g->n - 1 && d->op != OP_LEAF) {
+			rc_world(&rc, &B->w);
+			rc_add(&rc, B->h[d->a], "operand A");
+			if (d->op == OP_CAT) rc_add(&rc, B->h[d->b], "operand B");
+		}
 		if (d->op == OP_LEAF) {
 			B->h[i] = world_leaf(&B->w, d->a);
 			size_t n = strlen(LEAF_BYTES[d->a]);
@@ -923,7 +1002,8 @@ static bool build_dag(built_t *B, const dag_t *g, int cfg, bool full)
 			for (int j = 0; j < i && fresh; j++) if (B->h[j] == B->h[i]) fresh = false;
 			if (full) {
 				char canon[512]; int nrec;
-				ok = check_object(B->h[i], &B->m[i], canon, sizeof canon, &nrec, fresh ? (CO_FRESH | CO_FLAT_DEEP) : 0);
+				/* only the root may be flattened in place: inner nodes are operands */
+				ok = check_object(B->h[i], &B->m[i], canon, sizeof canon, &nrec, fresh && i == g->n - 1 ? (CO_FRESH | CO_FLAT_DEEP) : 0);
 				if (g_verbose) {
 					char t[600], bs[128]; dag_t sub = *g; sub.n = i + 1;
 					dag_fmt(&sub, t, sizeof t); m_fmt(bs, sizeof bs, B->m[i].b, B->m[i].n);
@@ -933,6 +1013,12 @@ static bool build_dag(built_t *B, const dag_t *g, int cfg, bool full)
 				FAIL("build-bytes", "node %d (%s) does not hold the model bytes", i, OP_NAME[d->op]);
 				ok = false;
 			}
+		}
+		if (rc.n && B->h[i]) {
+			/* root of a functional replay: release it and compare the counts */
+			dispatch_release(B->h[i]);
+			B->h[i] = NULL;
+			rc_check(&rc);
 		}
 		if (!ok) {
 			if (!B->h[i]) B->built = i;
@@ -1317,7 +1403,7 @@ static uint64_t enum_items(int level, int N, int W, int w, uint64_t resume, item
 typedef struct {
 	volatile uint64_t seq; volatile int variant; item_t item; volatile int in_item;
 	volatile int perm_idx, lvariant;
-	volatile uint64_t ops, evals, libcalls, oob, lruns, lterms;
+	volatile uint64_t ops, evals, libcalls, oob, lruns, lterms, info_region;
 	volatile int finished, prologue_done, timed_out;
 } prog_t;
 
@@ -1385,7 +1471,7 @@ static int sset_bump(sset_t *ss, const char *s)
 }
 
 /* ------------------------------------------------------------ BFS worker */
-typedef struct { prog_t *P; int fd; bool last; int level; sset_t seen; uint8_t *t2sent; int nsamp; uint64_t nitems; } wctx_t;
+typedef struct { prog_t *P; int fd; bool last; int level; sset_t seen; uint8_t *t2sent; int nsamp[5][2]; uint64_t nitems; } wctx_t;
 static const item_t *g_cur_item; static int g_cur_variant;
 static void fmt_cur_item(char *out, size_t cap)
 {
@@ -1407,6 +1493,10 @@ static void bfs_item(uint64_t seq, const item_t *it, void *ctx)
 		mstr mr; bool ok;
 		uint64_t lc0 = g_libcalls;
 		int before = g_nfail;
+		rcsnap_t rc = { .n = 0 };
+		rc_world(&rc, &g_pool_world);
+		rc_add(&rc, A, "operand A");
+		rc_add(&rc, B, "operand B");
 		dispatch_data_t R = apply_op(it->op, A, &S[it->sa].m, B, B ? &S[it->sb].m : NULL, it->x, it->y, &mr, &ok);
 		canon[v][0] = 0;
 		if (ok) {
@@ -1423,7 +1513,8 @@ static void bfs_item(uint64_t seq, const item_t *it, void *ctx)
 				else if (idx < 0 && wc->last) {
 					/* last depth: count the state in the shared set, never pooled */
 					deep = shset_insert(&g_sh_canon, fnv64(canon[v], strlen(canon[v]), FNV0));
-					emit = deep && wc->nsamp++ < 2; /* a few written out as samples */
+					emit = deep && wc->nsamp[it->op][nrec >= 2]++ < 1; /* a few written out as samples */
+					deep = deep && T.deep_last;
 				} else if (idx < 0) {
 					int c = sset_bump(&wc->seen, canon[v]);
 					emit = c < 3;
@@ -1433,25 +1524,29 @@ static void bfs_item(uint64_t seq, const item_t *it, void *ctx)
 					emit = true;
 				}
 				if (inb && wc->last) { m_fmt(ms, sizeof ms, mr.b, mr.n); shset_insert(&g_sh_bytes, fnv64(ms, strlen(ms), FNV0)); }
-				if (fresh) check_flattened(R, &mr, deep && nrec >= 2);
 				if (emit && g_nfail == before) {
 					m_fmt(ms, sizeof ms, mr.b, mr.n);
 					int n = snprintf(line, sizeof line, "S\t%llu\t%d\t%d\t%d\t%d\t%zu\t%zu\t%d\t%s\t=%s\n",
 					                 (unsigned long long)seq, v, it->op, it->sa, it->sb, it->x, it->y, nrec, canon[v], ms);
 					if (write(wc->fd, line, (size_t)n) != n) die("write: %s", strerror(errno));
 				}
+				/* last (it rewrites the representation in place); a failure here
+				 * does not keep the state out of the pool */
+				if (fresh) check_flattened(R, &mr, deep && nrec >= 2);
 			}
 		}
 		if (R) dispatch_release(R);
+		rc_check(&rc);
 		P->in_item = 0;
 		P->ops++; P->evals++;
 		P->libcalls += g_libcalls - lc0;
+		P->info_region = g_info_region_obj_larger;
 	}
 	g_cur_item = NULL;
 }
 static void bfs_worker(int level, int N, int W, int w, uint64_t resume, prog_t *P, int fd, bool last)
 {
-	wctx_t wc = { P, fd, last, level, { 0 }, NULL, 0, 0 };
+	wctx_t wc = { P, fd, last, level, { 0 }, NULL, { { 0 } }, 0 };
 	wc.t2sent = xmalloc((size_t)N + 1);
 	memset(wc.t2sent, 0, (size_t)N + 1);
 	g_vfd = fd;
@@ -1610,7 +1705,7 @@ typedef struct {
 } srec_t;
 static srec_t *SR; static size_t NSR, CAPSR;
 static struct {
-	uint64_t ops, evals, libcalls, oob, lruns, lterms, crashes, items;
+	uint64_t ops, evals, libcalls, oob, lruns, lterms, crashes, items, info_region;
 	bool exhaustive; int depth_done; int life_depth_done;
 	char *samples[16]; int nsamples;
 } M;
@@ -1698,7 +1793,11 @@ static void merge_level(int level, bool last)
 		item_t it = { (uint8_t)r->op, r->sa, r->sb, r->x, r->y };
 		int ta, tb;
 		int idx = ht_find(r->canon);
-		if (last) { if (idx < 0) add_sample(level + 1, &it, r->variant, r); goto next; }
+		if (last) {
+			if (g_verbose > 1) fprintf(stderr, "last-level sample candidate: op %d sa %d sb %d canon %s idx %d\n", r->op, r->sa, r->sb, r->canon, idx);
+			if (idx < 0) add_sample(level + 1, &it, r->variant, r);
+			goto next;
+		}
 		if (idx >= 0 && (S[idx].t[1] >= 0 || !S[idx].obj[0])) goto next;
 		if (!item_operands(&it, r->variant, &ta, &tb)) goto next;
 		if (idx < 0) {
@@ -1834,13 +1933,17 @@ static void run_phase(int phase, int level, int N, bool last)
 				size_t o = 0;
 				for (int i = 0; i < g.n; i++) o += (size_t)snprintf(perm_s + o, sizeof perm_s - o, "%s%d", i ? "," : "", perm[i]);
 			}
-			cst = confirm_run(&g, g_cfg, phase == PH_LIFE ? "lifetime" : "functional", perm, P[w].lvariant, clog, false);
+			/* a few confirmations are enough: ASan reports are slow to produce */
+			if (M.crashes <= 4)
+				cst = confirm_run(&g, g_cfg, phase == PH_LIFE ? "lifetime" : "functional", perm, P[w].lvariant, clog, false);
 		}
 		snprintf(detail, sizeof detail, "worker died (%s); %s; rebuilt from scratch: %s", summary[0] ? summary : cls,
 		         phase == PH_LIFE ? "during release-order run" : "while applying/observing this operation",
 		         cst < 0 ? "not attempted" : cst == 0 ? "passes (depends on pool history)" : "fails again");
 		vagg_add(cls, g_cfg, phase == PH_LIFE ? "lifetime" : "functional", term, perm_s, P[w].lvariant, detail, 1);
-		if (crashes[w] >= 25 || !P[w].in_item) { M.exhaustive = false; continue; }
+		/* keep going after a crash so that other classes are still found, but a
+		 * library that crashes everywhere must not eat the time budget */
+		if (crashes[w] >= 3 || M.crashes >= 12 || !P[w].in_item) { M.exhaustive = false; continue; }
 		resume[w] = it.op == OP_LEAF ? 0 : P[w].seq + 1;
 		P[w].in_item = 0;
 		pids[w] = spawn_worker(phase, level, N, last, W, w, resume[w], &P[w], res[w], logp[w]);
@@ -1848,7 +1951,7 @@ static void run_phase(int phase, int level, int N, bool last)
 	}
 	for (int w = 0; w < W; w++) {
 		M.ops += P[w].ops; M.evals += P[w].evals; M.libcalls += P[w].libcalls; M.oob += P[w].oob;
-		M.lruns += P[w].lruns; M.lterms += P[w].lterms;
+		M.lruns += P[w].lruns; M.lterms += P[w].lterms; if (phase == PH_BFS) M.info_region += P[w].info_region;
 		if (P[w].timed_out) M.exhaustive = false;
 		read_results(res[w], phase == PH_BFS);
 		unlink(res[w]); unlink(logp[w]);
@@ -1863,6 +1966,7 @@ static void master(int cfg, const char *respath)
 	g_cfg = cfg;
 	snprintf(g_tag, sizeof g_tag, "%d-c%d", (int)getppid(), cfg);
 	M.exhaustive = true;
+	if (!(T.full_depth_cfgs >> cfg & 1) && T.maxdepth > 1) T.maxdepth--; /* this process only */
 	world_init(&g_pool_world, cfg);
 	g_world = &g_pool_world;
 	g_vfd = -1; VC.cfg = cfg; VC.mode = "functional";
@@ -1907,6 +2011,7 @@ static void master(int cfg, const char *respath)
 		shset_insert(&g_sh_bytes, fnv64(ms, strlen(ms), FNV0));
 		if (S[i].depth < 8) per_depth[S[i].depth]++;
 	}
+	uint64_t phash = chash; /* states below the last depth */
 	nlast = *g_sh_canon.count; chash += shset_sum(&g_sh_canon);
 	nbytes = *g_sh_bytes.count; bhash = shset_sum(&g_sh_bytes);
 	if (g_sh_canon.count[1] || g_sh_bytes.count[1]) M.exhaustive = false;
@@ -1916,8 +2021,10 @@ static void master(int cfg, const char *respath)
 	fprintf(fp, "STAT\tstates\t%llu\n", (unsigned long long)NS + (unsigned long long)nlast);
 	for (int d = 0; d <= T.maxdepth && d < 8; d++) fprintf(fp, "STAT\tstates_d%d\t%d\n", d, per_depth[d]);
 	fprintf(fp, "STAT\tpooled\t%d\nSTAT\ttwoterm\t%d\n", pooled, twoterm);
+	fprintf(fp, "STAT\ttarget_depth\t%d\nSTAT\tinner_states\t%d\nSTAT\tinner_hash\t%llu\n", T.maxdepth, NS, (unsigned long long)phash);
 	fprintf(fp, "STAT\tops\t%llu\nSTAT\tevals\t%llu\nSTAT\tlibcalls\t%llu\nSTAT\toob\t%llu\n", (unsigned long long)M.ops,
 	        (unsigned long long)M.evals, (unsigned long long)M.libcalls, (unsigned long long)M.oob);
+	fprintf(fp, "STAT\tinfo_region\t%llu\n", (unsigned long long)M.info_region);
 	fprintf(fp, "STAT\titems\t%llu\nSTAT\tlruns\t%llu\nSTAT\tlterms\t%llu\nSTAT\tcrashes\t%llu\n", (unsigned long long)M.items,
 	        (unsigned long long)M.lruns, (unsigned long long)M.lterms, (unsigned long long)M.crashes);
 	fprintf(fp, "STAT\tdepth_done\t%d\nSTAT\tlife_depth_done\t%d\nSTAT\texhaustive\t%d\n", M.depth_done, M.life_depth_done, M.exhaustive ? 1 : 0);
@@ -2030,9 +2137,9 @@ static int do_replay(const char *path)
 
 /* ------------------------------------------------------------------ main */
 typedef struct {
-	uint64_t states, ops, evals, libcalls, oob, items, lruns, lterms, crashes, bytestrings, canonhash, byteshash, wall_ms, pooled, twoterm;
-	uint64_t per_depth[8];
-	int depth_done, life_depth_done, exhaustive; bool ok;
+	uint64_t info_region, states, ops, evals, libcalls, oob, items, lruns, lterms, crashes, bytestrings, canonhash, byteshash, wall_ms, pooled, twoterm;
+	uint64_t per_depth[8], inner_states, inner_hash;
+	int depth_done, life_depth_done, exhaustive, target_depth; bool ok;
 	char *samples[16]; int nsamples;
 } cres_t;
 
@@ -2051,7 +2158,8 @@ static void read_master(const char *path, cres_t *r)
 			ST("states", states); ST("ops", ops); ST("evals", evals); ST("libcalls", libcalls); ST("oob", oob);
 			ST("items", items); ST("lruns", lruns); ST("lterms", lterms); ST("crashes", crashes);
 			ST("bytestrings", bytestrings); ST("canonhash", canonhash); ST("byteshash", byteshash); ST("wall_ms", wall_ms);
-			ST("pooled", pooled); ST("twoterm", twoterm);
+			ST("info_region", info_region); ST("pooled", pooled); ST("twoterm", twoterm); ST("inner_states", inner_states); ST("inner_hash", inner_hash);
+			if (!strcmp(f[1], "target_depth")) r->target_depth = (int)v;
 			if (!strcmp(f[1], "depth_done")) r->depth_done = (int)v;
 			if (!strcmp(f[1], "life_depth_done")) r->life_depth_done = (int)v;
 			if (!strcmp(f[1], "exhaustive")) r->exhaustive = (int)v;
@@ -2082,7 +2190,7 @@ int main(int argc, char **argv)
 		else if (!strcmp(argv[i], "--config") && i + 1 < argc) only_cfg = atoi(argv[++i]);
 		else if (!strcmp(argv[i], "--workers") && i + 1 < argc) g_workers_total = atoi(argv[++i]);
 		else if (!strcmp(argv[i], "--depth") && i + 1 < argc) opt_depth = atoi(argv[++i]);
-		else if (!strcmp(argv[i], "--verbose")) g_verbose = 1;
+		else if (!strcmp(argv[i], "--verbose")) g_verbose++;
 		else die("usage: %s --tier quick|thorough --json <file> | --replay <file>", argv[0]);
 	}
 	g_t0 = now_s();
@@ -2145,26 +2253,41 @@ int main(int argc, char **argv)
 			unlink(resp[i]);
 		}
 	}
-	/* the algebra must not depend on how the leaves were created */
-	for (int i = 1; i < ncfg; i++)
-		if (R[i].ok && R[0].ok && R[i].exhaustive && R[0].exhaustive &&
-		    (R[i].states != R[0].states || R[i].canonhash != R[0].canonhash || R[i].byteshash != R[0].byteshash)) {
+	/* the algebra must not depend on how the leaves were created: configurations
+	 * searched to the same depth must reach the same canonical states (compared
+	 * by count and by an order-independent hash of the canonical forms); one
+	 * searched a level deeper must agree on all but its last level */
+	for (int i = 1; i < ncfg; i++) {
+		if (!(R[i].ok && R[0].ok && R[i].exhaustive && R[0].exhaustive)) continue;
+		bool differ = false;
+		if (R[i].depth_done == R[0].depth_done)
+			differ = R[i].states != R[0].states || R[i].canonhash != R[0].canonhash || R[i].byteshash != R[0].byteshash;
+		else if (R[i].depth_done == R[0].depth_done + 1)
+			differ = R[i].inner_states != R[0].states || R[i].inner_hash != R[0].canonhash;
+		else if (R[i].depth_done + 1 == R[0].depth_done)
+			differ = R[0].inner_states != R[i].states || R[0].inner_hash != R[i].canonhash;
+		if (differ) {
 			char d[300];
-			snprintf(d, sizeof d, "config %s reaches %llu canonical states, config %s reaches %llu (or different sets)",
-			         CONFIG_NAME[cfgs[0]], (unsigned long long)R[0].states, CONFIG_NAME[cfgs[i]], (unsigned long long)R[i].states);
+			snprintf(d, sizeof d, "config %s reaches %llu canonical states to depth %d, config %s reaches %llu to depth %d (or different sets)",
+			         CONFIG_NAME[cfgs[0]], (unsigned long long)R[0].states, R[0].depth_done, CONFIG_NAME[cfgs[i]],
+			         (unsigned long long)R[i].states, R[i].depth_done);
 			vagg_add("state-space-depends-on-leaf-kind", cfgs[i], "functional", "(whole search)", "-", 0, d, 1);
 		}
+	}
 	cres_t A; memset(&A, 0, sizeof A);
-	A.exhaustive = 1; A.depth_done = 99; A.life_depth_done = 99;
+	A.exhaustive = 1; A.depth_done = 0; A.life_depth_done = 99;
+	int deep_i = 0; char depths[128] = ""; size_t dpo = 0;
 	for (int i = 0; i < ncfg; i++) {
 		A.states += R[i].states; A.ops += R[i].ops; A.evals += R[i].evals; A.libcalls += R[i].libcalls; A.oob += R[i].oob;
 		A.items += R[i].items; A.lruns += R[i].lruns; A.lterms += R[i].lterms; A.crashes += R[i].crashes;
-		A.pooled += R[i].pooled; A.twoterm += R[i].twoterm;
+		A.pooled += R[i].pooled; A.twoterm += R[i].twoterm; A.info_region += R[i].info_region;
 		if (!R[i].exhaustive) A.exhaustive = 0;
-		if (R[i].depth_done < A.depth_done) A.depth_done = R[i].depth_done;
+		if (R[i].depth_done > A.depth_done) { A.depth_done = R[i].depth_done; deep_i = i; }
+		if (R[i].depth_done < R[i].target_depth || !R[i].ok) A.exhaustive = 0;
+		dpo += (size_t)snprintf(depths + dpo, sizeof depths - dpo, "%s%s:%d", i ? ", " : "", CONFIG_NAME[cfgs[i]], R[i].depth_done);
 		if (R[i].life_depth_done < A.life_depth_done) A.life_depth_done = R[i].life_depth_done;
 	}
-	if (A.depth_done < T.maxdepth || A.life_depth_done < T.life_depth) A.exhaustive = 0;
+	if (A.life_depth_done < T.life_depth) A.exhaustive = 0;
 	double wall = now_s() - g_t0;
 
 	/* violations: one entry per class, minimal input first */
@@ -2173,33 +2296,35 @@ int main(int argc, char **argv)
 	if (!fp) die("cannot write %s", json);
 	char bound[700];
 	snprintf(bound, sizeof bound,
-	         "%d leaf-kind configs x BFS over all terms of E,L1='a',L2='bc',L3='def' under cat/sub/map/reg to operation depth %d, "
+	         "%d leaf-kind configs x BFS over all terms of E,L1='a',L2='bc',L3='def' under cat/sub/map/reg to operation depth {%s}, "
 	         "objects <=%d records and <=%d bytes, sub off in {0..size+1,MAX} x len in {0..size+1,MAX,MAX-off}, reg loc in {0..size+1,MAX}, "
 	         "each op applied to up to 2 distinct terms per canonical state; lifetime: every op application of depth <=%d with <=%d handles x all release orders x 3 variants",
-	         ncfg, A.depth_done, T.maxrec, T.maxbytes, A.life_depth_done, T.life_handles);
+	         ncfg, depths, T.maxrec, T.maxbytes, A.life_depth_done, T.life_handles);
 	fprintf(fp, "{\"name\": \"" NAME "\", \"property\": \"" PROP "\", \"tier\": \"%s\",\n \"bound\": ", T.name);
 	json_str(fp, bound);
 	fprintf(fp, ",\n \"states\": %llu, \"transitions\": %llu, \"evaluations\": %llu, \"distinct_outcomes\": %llu,\n",
 	        (unsigned long long)A.states, (unsigned long long)(A.libcalls), (unsigned long long)(A.evals + A.lruns),
-	        (unsigned long long)R[0].bytestrings);
+	        (unsigned long long)R[deep_i].bytestrings);
 	fprintf(fp, " \"traces_validated_against_impl\": %llu, \"exhaustive\": %s, \"max_depth\": %d,\n",
 	        (unsigned long long)(A.evals + A.lruns), A.exhaustive ? "true" : "false", A.depth_done);
-	fprintf(fp, " \"detail\": {\"configs\": %d, \"states_per_config\": %llu, \"states_by_depth_config0\": [", ncfg, (unsigned long long)R[0].states);
-	for (int d = 0; d <= T.maxdepth && d < 8; d++) fprintf(fp, "%s%llu", d ? ", " : "", (unsigned long long)R[0].per_depth[d]);
+	fprintf(fp, " \"detail\": {\"configs\": %d, \"states_deepest_config\": %llu, \"states_by_depth_deepest_config\": [", ncfg, (unsigned long long)R[deep_i].states);
+	for (int d = 0; d <= T.maxdepth && d < 8; d++) fprintf(fp, "%s%llu", d ? ", " : "", (unsigned long long)R[deep_i].per_depth[d]);
 	fprintf(fp, "], \"pooled_states\": %llu, \"states_with_two_terms\": %llu, \"work_items\": %llu, \"ops_applied\": %llu, "
 	        "\"terms_checked\": %llu, \"library_calls_incl_oracle\": %llu, \"results_outside_bound\": %llu, "
-	        "\"lifetime_terms\": %llu, \"lifetime_runs\": %llu, \"worker_crashes\": %llu, \"distinct_byte_strings\": %llu},\n",
+	        "\"lifetime_terms\": %llu, \"lifetime_runs\": %llu, \"worker_crashes\": %llu, \"distinct_byte_strings\": %llu, "
+	        "\"info_terms_whose_apply_region_object_is_larger_than_the_region\": %llu},\n",
 	        (unsigned long long)A.pooled, (unsigned long long)A.twoterm, (unsigned long long)A.items, (unsigned long long)A.ops,
 	        (unsigned long long)A.evals, (unsigned long long)A.libcalls, (unsigned long long)A.oob, (unsigned long long)A.lterms,
-	        (unsigned long long)A.lruns, (unsigned long long)A.crashes, (unsigned long long)R[0].bytestrings);
+	        (unsigned long long)A.lruns, (unsigned long long)A.crashes, (unsigned long long)R[deep_i].bytestrings,
+	        (unsigned long long)A.info_region);
 	fprintf(fp, " \"samples\": [");
 	int ns = 0;
 	/* spread over depths: take from the end (deepest) and the start */
-	for (int i = 0; i < R[0].nsamples && ns < 5; i++) {
-		int k = (i % 2) ? R[0].nsamples - 1 - i / 2 : i / 2;
-		if (k < 0 || k >= R[0].nsamples || !R[0].samples[k]) continue;
-		fprintf(fp, "%s{\"case\": ", ns ? ", " : ""); json_str(fp, R[0].samples[k]); fprintf(fp, "}");
-		R[0].samples[k] = NULL; ns++;
+	for (int i = 0; i < R[deep_i].nsamples && ns < 5; i++) {
+		int k = (i % 2) ? R[deep_i].nsamples - 1 - i / 2 : i / 2;
+		if (k < 0 || k >= R[deep_i].nsamples || !R[deep_i].samples[k]) continue;
+		fprintf(fp, "%s{\"case\": ", ns ? ", " : ""); json_str(fp, R[deep_i].samples[k]); fprintf(fp, "}");
+		R[deep_i].samples[k] = NULL; ns++;
 	}
 	fprintf(fp, "],\n \"violations_list\": [");
 	int nout = 0;
@@ -2230,9 +2355,9 @@ int main(int argc, char **argv)
 	}
 	fprintf(fp, "],\n \"violation_classes\": %d, \"wall_s\": %.2f}\n", NVA, wall);
 	fclose(fp);
-	printf(NAME " %s: %llu canonical states (%llu per config x %d), %llu ops applied, %llu library calls, %llu lifetime runs, "
+	printf(NAME " %s: %llu canonical states (%llu in the deepest of %d configs), %llu ops applied, %llu library calls, %llu lifetime runs, "
 	       "depth %d, exhaustive=%s, %d violation class(es), %.1f s\n", T.name, (unsigned long long)A.states,
-	       (unsigned long long)R[0].states, ncfg, (unsigned long long)A.ops, (unsigned long long)A.libcalls,
+	       (unsigned long long)R[deep_i].states, ncfg, (unsigned long long)A.ops, (unsigned long long)A.libcalls,
 	       (unsigned long long)A.lruns, A.depth_done, A.exhaustive ? "true" : "false", NVA, wall);
 	for (int i = 0; i < NVA && i < 20; i++)
 		printf("  VIOLATION %s: %s%s%s [leaves %s] x%llu -- %s\n", VA[i].cls, VA[i].term, strcmp(VA[i].perm, "-") ? " order " : "",
